@@ -1,7 +1,7 @@
 (* C03 — property theorems: every crash point / failed write of a command whose backend
    calls follow the order discipline leaves only closed (fully readable) snapshots. *)
 From Verif.Base Require Import Tactics.
-From Verif.C03 Require Import Model Spec Proofs Proofs2.
+From Verif.C03 Require Import Model Spec Proofs Proofs2 Proofs3.
 Local Open Scope N_scope.
 
 (* Crash points: if the repository is closed before the command and the command's calls
@@ -57,6 +57,24 @@ Example writes_snapshots_removes_ok_hyps :
   forallb is_plain ex_new_writes = true /\ fresh ex_s0 ex_new_writes /\
   closedb (apply ex_new_writes ex_s0) [(Tree, 13); (Data, 12); (Data, 11)] = true.
 Proof. destruct ex_fresh. split; [auto|]. split; [auto|]. vm_compute. reflexivity. Qed.
+
+(* ... and for EVERY interleaving: if some order `ws` of the new packs / index files makes the
+   snapshots closed, then every permutation `ws'` of those writes followed by the snapshot
+   writes and the removals is inside the discipline (a superset of the linearisations that keep
+   each writer thread's own order). *)
+Theorem any_interleaving_ok : forall s ws ws' sns dl,
+  Permutation ws ws' -> forallb is_plain ws = true -> fresh s ws ->
+  (forall e, In e sns -> closedb (apply ws s) (snd e) = true) ->
+  discipline_ok s (ws' ++ map wsnap sns ++ map rsnap dl) = true.
+Proof. exact any_interleaving_ok_lemma. Qed.
+Print Assumptions any_interleaving_ok.
+Example any_interleaving_ok_instance :
+  discipline_ok ex_s0 (rev ex_new_writes ++ map wsnap [(7, [(Tree, 13); (Data, 12); (Data, 11)])] ++ map rsnap [3]) = true.
+Proof.
+  destruct ex_fresh. apply (any_interleaving_ok ex_s0 ex_new_writes); auto.
+  - apply Permutation_rev.
+  - intros e [<-|[]]. vm_compute. reflexivity.
+Qed.
 
 (* Intended order of prune (and of repair index: rp = []): new packs + new index files in any
    order, then removal of old index files, then removal of old packs — inside the discipline
